@@ -59,7 +59,7 @@ class Headers:
             await asyncio.get_event_loop().run_in_executor(None, _readit)
         bytes_size = self.io.seek(0, os.SEEK_END)
         self._size = bytes_size // self.header_size
-        max_checkpointed_height = max(self.checkpoints.keys() or [-1]) + 1000
+        max_checkpointed_height = max(self.checkpoints.keys()) + 1000 if self.checkpoints else 0
         if bytes_size % self.header_size:
             log.warning("Reader file size doesnt match header size. Repairing, might take a while.")
             await self.repair()
